@@ -53,7 +53,8 @@ def plan(tier, seed):
 def minimums(tier):
     return {"runs.readonly": 4000, "runs.delete": 500, "runs.delete_all": 300, "runs.json": 300, "snapshots.compared": 5000,
             "audit.events": 500, "delete.removed_one": 200, "delete.not_found": 100, "delete.invalid_id": 50,
-            "nested.preserved": 300, "runs.file_clean": 200, "runs.readonly_with_dominated_options": 1000}
+            "nested.preserved": 300, "runs.file_clean": 200, "runs.readonly_with_dominated_options": 1000,
+            "delete_all.with_special_entries": 80}
 
 
 def build_tree(rng, u, reg, root, i):
@@ -180,6 +181,22 @@ def run(spec, ctx):
         for idarg in rng.sample(cands, min(3, len(cands))):
             observe(ctx, d, ["-p", d.root, "-d", idarg], "delete", idarg, i)
         if rng.random() < 0.5:
+            if rng.random() < 0.6:
+                # entries that are not regular files, directly in the PEL directory: a FIFO, a bound UNIX socket, a dangling
+                # link, a link to a directory - "--delete-all removes the regular files" leaves them alone
+                import socket
+                os.mkfifo(os.path.join(d.root, "notify.fifo"))
+                sk = socket.socket(socket.AF_UNIX)
+                cwd = os.getcwd()
+                try:
+                    os.chdir(d.root)              # AF_UNIX paths are short: bind by relative name
+                    sk.bind("notify.sock")
+                finally:
+                    os.chdir(cwd)
+                    sk.close()
+                os.symlink("nowhere", os.path.join(d.root, "dangling.pel"))
+                os.symlink(root, os.path.join(d.root, "updir"))
+                ctx.count("delete_all.with_special_entries")
             observe(ctx, d, ["-p", d.root, "-D"], "delete_all", None, i)
         d.remove()
         import shutil
@@ -264,7 +281,8 @@ def observe(ctx, d, argv, kind, arg, i, ents=None, extra_roots=()):
         if created or changed or other_changes:
             ctx.violation("C11/delete-all-changed-other-files", "-D created %s / modified %s" % (created[:5], changed[:5]))
         if sorted(removed) != top_files:
-            sub = "descended" if any("/" in k for k in removed) else "incomplete"
+            sub = "descended" if any("/" in k for k in removed) else \
+                "removed-entry-that-is-no-regular-file" if any(before[0].get(k, ("file",))[0] != "file" for k in removed) else "incomplete"
             ctx.violation("C11/delete-all-" + sub, "-D removed %s; the regular files directly in the directory are %s" %
                           (removed[:8], top_files[:8]))
         return
